@@ -317,14 +317,32 @@ class Builder:
             self.steps.append({"op": "wait_tasks", "n": self.ended, "timeout_ms": 6000})
         self._snap()
 
-    def cancel(self, target, rng=None, refused=False):
+    def stall(self):
+        """the pooler's main loop stops reading the client accounting (drain) channel and the channel is full:
+        every client task that reaches a drain.send(..).await waits there — a CancelRequest's task between
+        accept and handle()"""
+        self.actions.append(["stall"])
+        self.steps.append({"op": "drain_stall", "on": True})
+
+    def unstall(self, pause_ms=250):
+        self.actions.append(["unstall"])
+        self.steps.append({"op": "drain_stall", "on": False})
+        if self.unsynced:
+            self.unsynced = 0
+            self.steps.append({"op": "wait_tasks", "n": self.ended, "timeout_ms": 6000})
+        # whatever the released request does arrives now: its window stays open for pause_ms
+        self.steps += [{"op": "wait_event", "ev": "cancel", "above_mark": "k", "count": 1, "timeout_ms": 80}, {"op": "sleep", "ms": pause_ms}]
+        self._snap()
+
+    def cancel(self, target, rng=None, refused=False, parked=False):
         """target: client name (the key issued to it) | ["pid_of", c] (right pid, wrong secret) | "random".
         refused: the server's listener is refusing connections right now (the pooler's task is not waited for:
-        a pooler that retried would still be busy)."""
+        a pooler that retried would still be busy).  parked: the drain channel is stalled, the request's task
+        waits between accept and handle() until unstall()."""
         rng = rng or self._rng
-        self.actions.append(["cancel", target] + (["refused"] if refused else []))
+        self.actions.append(["cancel", target] + (["refused"] if refused else []) + (["parked"] if parked else []))
         self.steps.append({"op": "mark_events", "ev": "cancel", "mark": "k"})
-        if refused:
+        if refused or parked:
             self.steps.append({"op": "cancel", "c": "canceller", "of": target, "timeout_ms": 150})
             self.accepted += 1
             self.ended += 1
@@ -441,6 +459,7 @@ def systematic(hook):
                         b.cancel("c0"); b.cancel(o)
                         out.append(b)
     out += refusal_family()
+    out += parked_family()
     if hook:
         for mode in ("transaction", "session"):
             for psize in (1, 2):
@@ -512,6 +531,76 @@ def refusal_family():
     b.cancel("c2"); b.cancel("c1"); b.cancel("c0"); b.drain()
     out.append(b)
     return out
+
+
+def parked_family():
+    """P: the CancelRequest's task is held up between accept and handle() (the accounting channel is stalled and
+    full, client_entrypoint waits in drain.send(1).await) while the requester's statement ends and another
+    client takes the same server session; then the task is released.  The lookup must be the one of THAT
+    instant: no packet may arrive at a session whose borrower is not the requester."""
+    out = []
+    b = Builder("transaction", 1, 2, False, "tran/p1/parked-handover")
+    b.long("c0"); b.cancel("c0"); b.stall(); b.cancel("c0", parked=True)
+    b.finish("c0"); b.long("c1"); b.unstall()
+    b.cancel("c1"); b.cancel("c0"); b.finish("c1"); b.cancel("c1")
+    out.append(b)
+    b = Builder("session", 1, 2, False, "sess/p1/parked-then-X")
+    b.stmt("c0"); b.long("c0"); b.stall(); b.cancel("c0", parked=True)
+    b.finish("c0"); b.term("c0"); b.long("c1"); b.unstall()
+    b.cancel("c0"); b.cancel("c1"); b.finish("c1")
+    out.append(b)
+    b = Builder("transaction", 1, 2, False, "tran/p1/parked-in-txn")
+    b.begin("c0"); b.long("c0"); b.stall(); b.cancel("c0", parked=True)
+    b.finish("c0"); b.commit("c0"); b.begin("c1"); b.long("c1"); b.unstall()
+    b.cancel("c1"); b.finish("c1"); b.commit("c1"); b.cancel("c1")
+    out.append(b)
+    # the requester still runs its statement when the task is released: the lookup of that instant finds it
+    b = Builder("session", 1, 2, False, "sess/p1/parked-still-holding")
+    b.long("c0"); b.stall(); b.cancel("c0", parked=True); b.unstall()
+    b.cancel("c0"); b.finish("c0"); b.cancel("c0")
+    out.append(b)
+    # pool of 2: both sessions are re-dealt while the task waits; the requester holds A session when it is released
+    b = Builder("transaction", 2, 2, False, "tran/p2/parked-redealt")
+    b.long("c0"); b.long("c1"); b.stall(); b.cancel("c0", parked=True)
+    b.finish("c0"); b.finish("c1"); b.long("c1"); b.long("c0"); b.unstall()
+    b.cancel("c0"); b.cancel("c1"); b.drain()
+    out.append(b)
+    # accepted before the requester holds anything, handled while it runs a statement
+    b = Builder("transaction", 1, 2, False, "tran/p1/parked-before-checkout")
+    b.stall(); b.cancel("c0", parked=True); b.long("c0"); b.unstall()
+    b.cancel("c0"); b.finish("c0"); b.cancel("c0")
+    out.append(b)
+    return out
+
+
+def parked_program(rng, idx):
+    """randomised variant of the parked family (thorough tier)."""
+    mode = rng.choice(["transaction", "session"])
+    psize = rng.choice([1, 2])
+    b = Builder(mode, psize, 2, False, "random-parked#%d" % idx)
+    x, y = rng.sample(["c0", "c1"], 2)
+    if rng.random() < 0.5:
+        b.begin(x) if rng.random() < 0.5 else b.stmt(x)
+    if rng.random() < 0.8:
+        b.long(x)
+    if psize == 2 and rng.random() < 0.5:
+        b.long(y)
+    b.stall()
+    b.cancel(x, parked=True)
+    for _ in range(rng.randint(1, 5)):
+        acts = [(a, c) for c in b.order for a in ("begin", "stmt", "long", "finish", "finish", "commit") if b.can(a, c)]
+        if mode == "session":
+            acts += [("term", c) for c in b.order if b.can("term", c)]
+        acts = [(a, c) for a, c in acts if not (a in ("long", "begin", "stmt") and not (b.cl[c]["holds"] or b._free("dba")))]
+        if not acts:
+            break
+        a, c = rng.choice(acts)
+        getattr(b, a)(c)
+    b.unstall()
+    b.cancel(y); b.cancel(x)
+    b.drain()
+    b.cancel(x)
+    return b
 
 
 def refusal_program(rng, idx):
@@ -674,6 +763,8 @@ def analyse(meta, res):
     retired_sessions = set()
     refusing = {}
     last_refused_owner = [None]
+    stalled = [False]
+    parked_reqs = []
 
     def holder_of(backend, pid, key):
         """who borrows, at this instant, the session of `backend` that carries (pid, key)"""
@@ -774,6 +865,18 @@ def analyse(meta, res):
             retired = sorted(sid_of[sk] for sk in sid_of if sk[0] in old and ready_seq[sk] < e["seq"])
             retired_sessions.update(sk for sk in sid_of if sk[0] in old and ready_seq[sk] < e["seq"])
             ops.append("Reload [%s]" % "; ".join(str(x) for x in retired))
+        elif kind == "drain_stall":
+            stalled[0] = bool(e.get("on"))
+            if not stalled[0]:
+                # the waiting requests' tasks go on now: handle() runs, in the order they were accepted
+                for k in parked_reqs:
+                    k["held"] = holding.get(k["owner"][1]) if k["owner"][0] == "client" else None
+                    k["held_retired"] = k["held"] is not None and k["held"] in retired_sessions
+                    k["op_index"] = len(ops)
+                    k["released_seq"] = e["seq"]
+                    ops.append("CancelAct " + k["sym"])
+                    ops.append("CancelDrop " + k["sym"])
+                del parked_reqs[:]
         elif kind == "refuse_new":
             refusing[e.get("b")] = bool(e.get("on"))
         elif kind == "mark" and str(e.get("mark", "")).startswith("late:"):
@@ -805,6 +908,13 @@ def analyse(meta, res):
                         break
                     if o == "CancelDrop " + sym:
                         cancels[-1]["prior_same_key_since_checkout"] = True
+            if stalled[0]:
+                # accepted, but its task waits in drain.send(1).await: handle() (the lookup) comes at unstall
+                cancels[-1]["parked"] = True
+                cancels[-1]["refused"] = False
+                parked_reqs.append(cancels[-1])
+                ops.append("CancelAccept " + sym)
+                continue
             refused = held is not None and refusing.get(held[0], False)
             cancels[-1]["refused"] = refused
             if refused:
@@ -820,6 +930,11 @@ def analyse(meta, res):
     while si < len(snaps):
         snap_at.append((len(ops), snaps[si].get("csm"), snaps[si].get("label")))
         si += 1
+    for k in cancels:
+        if k.get("parked") and any(x["seq"] < k.get("released_seq", 1 << 60) for x in k["events"]):
+            problems.append("a request that should have waited between accept and handle() was served before the drain channel was released (the stall does not hold)")
+        if k.get("parked") and "released_seq" not in k:
+            problems.append("a parked request was never released")
     if any(k["owner"] is None for k in cancels):
         problems.append("a cancel step left no cancel_sent event")
         cancels = [k for k in cancels if k["owner"] is not None]
@@ -859,7 +974,7 @@ def analyse(meta, res):
             hn = x.get("holder_now")
             if hn is not None and k["owner"][0] == "client" and hn[2] != k["owner"][1]:
                 v.append((None, "CancelRequest for the key of %s arrived%s at session %s/%d which is %s at that instant" % (
-                    k["owner"][1], " late" if (k.get("late") or k.get("refused")) else "", hn[0], hn[1],
+                    k["owner"][1], " late" if (k.get("late") or k.get("refused") or k.get("parked")) else "", hn[0], hn[1],
                     ("borrowed by " + hn[2]) if hn[2] else "borrowed by nobody")))
         for x in evs:
             # model-free sanity of every packet: it names a session of the backend that received it
@@ -966,7 +1081,7 @@ def evaluate(wire, metas, scns, workers):
     results = WL.run_scenarios(wire, scns, workers=workers, timeout=120)
     analyses = [analyse(m, r) for m, r in zip(metas, results)]
     good = [i for i, a in enumerate(analyses) if not a.get("error") and not a["problems"]]
-    exprs = ["(cancel_drop_removes code_variant, exit_entry_first code_variant, reload_prunes code_variant, cancel_retries code_variant)"] + [coq_expr(analyses[i]) for i in good]
+    exprs = ["(cancel_drop_removes code_variant, exit_entry_first code_variant, reload_prunes code_variant, cancel_retries code_variant, lookup_at_accept code_variant)"] + [coq_expr(analyses[i]) for i in good]
     vals = vlib.coq_eval("c10eval", PREAMBLE, exprs, shard=24)
     flags = vlib.parse_coq(vals[0])
     models = {i: vlib.parse_coq(v) for i, v in zip(good, vals[1:])}
@@ -1029,8 +1144,8 @@ def run_batch(run, wire, builders, stats, samples, distinct):
             # a distinct case = (mode, pool size, pools, the abstract situation of the key's owner, outcome, op context)
             ctx = tuple(a["ops"][max(0, k["op_index"] - 3):k["op_index"]])
             distinct.add((m["mode"], m["psize"], m["two_pools"], k["owner"][0], k["held"] is not None, k["owner_exiting"],
-                          k["prior_same_key_since_checkout"], k.get("held_retired"), k.get("late"), k.get("refused"), str(norm_outcome(a["obs"][j])) != "Silent", ctx))
-            kind = ("late-window" if k.get("late") else "refused-connection" if k.get("refused") else "exit-window" if k["owner_exiting"] else "holder" if k["held"] is not None else k["owner"][0] if k["owner"][0] != "client" else "not-holding")
+                          k["prior_same_key_since_checkout"], k.get("held_retired"), k.get("late"), k.get("refused"), k.get("parked"), str(norm_outcome(a["obs"][j])) != "Silent", ctx))
+            kind = ("late-window" if k.get("late") else "refused-connection" if k.get("refused") else "parked-before-handle" if k.get("parked") else "exit-window" if k["owner_exiting"] else "holder" if k["held"] is not None else k["owner"][0] if k["owner"][0] != "client" else "not-holding")
             stats["timing_classes"][kind] = stats["timing_classes"].get(kind, 0) + 1
         if len(samples) < 6 and (i % 9 == 0 or m.get("parked")) and i in models:
             samples.append({"label": m["label"], "actions": m["actions"], "ops": a["ops"], "impl": [str(o) for o in a["obs"]],
@@ -1076,6 +1191,7 @@ def check(run):
         builders += wb
     if not quick:
         builders += [refusal_program(rng, i) for i in range(40)]
+        builders += [parked_program(rng, i) for i in range(60)]
     if not proof_ok:
         # the model may not even compile: run the monitor alone by evaluating against a trivial model is impossible;
         # fall through to the batch (coq_eval needs Model.vo) only if Model.vo exists
@@ -1094,7 +1210,7 @@ def check(run):
     run.cov["traces_validated_against_impl"] = stats["traces"]
     run.cov["rule"] = ("systematic families (mode transaction|session x pool_size 1|2 x one pool | two pools on two backends with identical session (pid,key)): "
                        "own-key timings (before any statement, during a gated statement, twice during it, idle in transaction, between transactions, after COMMIT, after X, right pid + wrong secret, random key, other client's key), "
-                       "hand-over of a server between two clients incl. cancel while waiting for the pool, error exits (socket closed | frame with length 3 | Close that panics its decoder | Bind of an unknown statement with the statement cache on; in a transaction | idle) followed by reuse of the server; configuration reloads (write_config + reload_config | admin RELOAD; pool moved to another backend | server added/removed | unchanged; one pool of two changed) while statements run, cancels before and after, next checkout on the new pool; refused cancel connections (the backend's listener refuses new connections while established sessions keep working; the requester's statement ends, another client takes the session, the listener returns, 1.6 s of settle time whose late arrivals are judged at arrival time); "
+                       "hand-over of a server between two clients incl. cancel while waiting for the pool, error exits (socket closed | frame with length 3 | Close that panics its decoder | Bind of an unknown statement with the statement cache on; in a transaction | idle) followed by reuse of the server; configuration reloads (write_config + reload_config | admin RELOAD; pool moved to another backend | server added/removed | unchanged; one pool of two changed) while statements run, cancels before and after, next checkout on the new pool; refused cancel connections (the backend's listener refuses new connections while established sessions keep working; the requester's statement ends, another client takes the session, the listener returns, 1.6 s of settle time whose late arrivals are judged at arrival time); requests parked between accept and handle() (the drain channel is stalled and full: client_entrypoint waits in drain.send(1).await) while the session changes hands / is re-dealt / the requester keeps or only then gets a session; "
                        "%s; plus %d seeded random client programs (8-14 actions, 2-3 clients; thorough: 12-24 actions, 2-4 clients) with a cancel at ~42%% of the positions and %d random programs with one exit held open at the schedule point. "
                        "evaluations = cancel requests judged three ways (backend packets, trace monitor, Coq model); distinct = distinct (mode, pool size, pools, owner situation, outcome, 3-op context) tuples"
                        % ("exit-window schedules held open with the schedule point %s (task parked between handle() and the drop of Client, another client takes the server, cancels with the departing key before/after)" % HOOK_POINT if hook else "NO schedule point in /repo: exit-window schedules skipped", nrand, nwin))
@@ -1104,8 +1220,8 @@ def check(run):
                                      "reloads": stats["reload_ops"], "reloads_that_replaced_a_pool": stats["reload_changed"],
                                      "cancels_by_a_holder_of_a_replaced_pools_session": stats["cancels_holder_of_retired"],
                                      "exit_window_scenarios": stats["window_scenarios"], "cancels_inside_exit_window": stats["window_cancels"],
-                                     "hook_point_present": hook, "scenarios_rerun_after_a_problem": stats["reruns"], "problems_not_reproduced_on_rerun": stats["flaky"][:10], "code_variant": {"cancel_drop_removes": flags[0], "exit_entry_first": flags[1], "reload_prunes": flags[2], "cancel_retries": flags[3]} if flags else None}
-    run.cov["transitions"] = "model ops exercised: Checkout, ReleaseNormal, Terminate, ExitDropGuard(clean|unclean), ExitDropClient, Cancel, CancelRefused, DeliverLate, CancelDrop, Reload (SrvClose is never forced by these scenarios)"
+                                     "hook_point_present": hook, "scenarios_rerun_after_a_problem": stats["reruns"], "problems_not_reproduced_on_rerun": stats["flaky"][:10], "code_variant": {"cancel_drop_removes": flags[0], "exit_entry_first": flags[1], "reload_prunes": flags[2], "cancel_retries": flags[3], "lookup_at_accept": flags[4]} if flags else None}
+    run.cov["transitions"] = "model ops exercised: Checkout, ReleaseNormal, Terminate, ExitDropGuard(clean|unclean), ExitDropClient, Cancel, CancelRefused, DeliverLate, CancelAccept, CancelAct, CancelDrop, Reload (SrvClose is never forced by these scenarios)"
     if not proof_ok and not run.violations and not run.broken:
         run.violation("proof-broken", "coq/Cancel/Props.v no longer checks; the wire correspondence found no failing input", {"theorem": "Cancel/Props.v", "coq_log": log[-2500:]}, found_input=False)
     if not quick and proof_ok:
@@ -1124,7 +1240,7 @@ def replay(run, path):
     if a.get("error"):
         print("replay: scenario did not run:", a["error"])
         return 2
-    vals = vlib.coq_eval("c10replay", PREAMBLE, ["(cancel_drop_removes code_variant, exit_entry_first code_variant, reload_prunes code_variant, cancel_retries code_variant)", coq_expr(a)])
+    vals = vlib.coq_eval("c10replay", PREAMBLE, ["(cancel_drop_removes code_variant, exit_entry_first code_variant, reload_prunes code_variant, cancel_retries code_variant, lookup_at_accept code_variant)", coq_expr(a)])
     model = vlib.parse_coq(vals[1])
     print("ops  :", a["ops"])
     print("impl :", [str(o) for o in a["obs"]])
